@@ -1,5 +1,4 @@
 """C04 — cancel() suppresses the whole trace and nothing else."""
-import known as K
 import seqcheck
 import seqrun
 from props import c09
@@ -10,8 +9,7 @@ def knobs(r, i):
 
 
 def run(v, tier, seed, replay):
-    cases, impl, model = seqcheck.run(v, tier, seed, replay, "C04", ["C04", "Fifo"], tree_oracles=["no_panic", "exactly_once", "tree", "attachments", "retained"], knobs=knobs, known=K.known("C04", "D21"),
-                 extra_cases=lambda r: [K.case("C04", "D21", ["no_panic", "exactly_once"])],
+    cases, impl, model = seqcheck.run(v, tier, seed, replay, "C04", ["C04", "Fifo", "Parked"], tree_oracles=["no_panic", "exactly_once", "tree", "attachments", "retained"], knobs=knobs,
                  n_quick=(1800, 300), n_thorough=(60000, 5000),
                  assumptions=["queue-full episodes around cancel/finish are exercised in the C09 tier (forced commands FIFO, D2 fix)",
                               "a thread exiting with parked commands and a full queue can lose the drop (open finding D3, outside the stated property)"])
@@ -33,3 +31,7 @@ def run(v, tier, seed, replay):
         v.coverage["overload_scenarios"] = tags
     if not replay and not v.violations:
         c09.run_scenarios(v, {"cancel-split-%d" % k: c09.sc_cancel_split(k) for k in (1, 2, 3)}, with_model=False, jobs=3)
+    # D21: the cancel is parked on its thread, the root finishes elsewhere (model: Sys.parkedCancels / takeParked)
+    if not replay and not v.violations:
+        c09.run_scenarios(v, {"cancel-parked-%s" % k: c09.sc_cancel_parked_elsewhere(k) for k in ("plain", "second-pass", "exit", "default")},
+                          with_model=True, jobs=4)
